@@ -108,7 +108,52 @@ def real_routes(cls, provenance):
     return out
 
 
+def mixed_results():
+    """Results of operations that mix a non-literal operand with a literal of every small value, both orders: the
+    result depends on run-time data, so it must be a non-literal Nada value whose truth test raises — whatever the
+    literal's value (a value-dependent shortcut such as `x | False -> False` would hand Python a concrete answer)."""
+    import nada_dsl as D
+    from nada_dsl.program_io import Input as RawInput
+    bad, n = [], 0
+    BOOL_OPS = {"&": operator.and_, "|": operator.or_, "^": operator.xor, "==": operator.eq, "!=": operator.ne}
+    INT_OPS = {"+": operator.add, "-": operator.sub, "*": operator.mul, "/": operator.truediv, "%": operator.mod,
+               "<": operator.lt, ">": operator.gt, "<=": operator.le, ">=": operator.ge, "==": operator.eq, "!=": operator.ne,
+               "**": operator.pow, "<<": operator.lshift, ">>": operator.rshift}
+    cases = []
+    for X in (D.PublicBoolean, D.SecretBoolean):
+        for v in (True, False):
+            cases += [(X, D.Boolean, v, sym, f) for sym, f in BOOL_OPS.items()]
+    for X, L in ((D.PublicInteger, D.Integer), (D.SecretInteger, D.Integer), (D.PublicUnsignedInteger, D.UnsignedInteger),
+                 (D.SecretUnsignedInteger, D.UnsignedInteger)):
+        for v in (0, 1, 2) + ((-1,) if L is D.Integer else ()):
+            cases += [(X, L, v, sym, f) for sym, f in INT_OPS.items()]
+    for X, L, v, sym, f in cases:
+        for order in ("xl", "lx"):
+            reset_globals()
+            party = D.Party("p")
+            x = X(RawInput("x", party))
+            lit = (D.UnsignedInteger if sym in ("<<", ">>") and order == "xl" else L)(v)
+            try:
+                r = f(x, lit) if order == "xl" else f(lit, x)
+            except Exception:  # pylint: disable=broad-except
+                continue          # rejected combinations are C02's business
+            n += 1
+            text = f"{X.__name__} {sym} {L.__name__}({v})" if order == "xl" else f"{L.__name__}({v}) {sym} {X.__name__}"
+            from nada_dsl.nada_types import NadaType
+            if not isinstance(r, NadaType):
+                bad.append((text, f"returned the plain Python value {r!r}"))
+                continue
+            if kind(lambda r=r: bool(r)) != "raises" or kind(lambda r=r: 1 if r else 2) != "raises":
+                bad.append((text, f"returned a {type(r).__name__} whose truth value Python can read "
+                                  f"({'literal' if getattr(r, 'is_literal', lambda: False)() else 'non-literal'}): a condition on it silently chooses a branch"))
+    reset_globals()
+    return bad, n
+
+
 def run(res, tier):
+    mixed, nmixed = mixed_results()
+    for text, why in mixed[:6]:
+        res.violation({"property": "C07", "kind": "mixed-result", "expr": text, "why": why}, f"{text}: {why}")
     pred = {}
     for c, r, o, outc in core.driver([{"k": "c07routes"}])[0]:
         pred[(c, r, o)] = outc
@@ -136,6 +181,8 @@ def run(res, tier):
                         bad = "a truth test of a non-literal Nada value did not raise"
                     elif route == "iter" and name == "Array" and outc != "raises":
                         bad = "iterating over a Nada array did not raise"
+                    elif route == "hash" and outc != "raises":
+                        bad = "hashing a non-literal Nada value did not raise: membership in a set / dict silently answers by identity"
                     elif route in OPS and outc == "silent":
                         bad = f"{route} against a {other} operand returned a plain Python value"
                     elif route.endswith("+truth") and outc != "raises":
@@ -159,6 +206,7 @@ def run(res, tier):
                 "each also used as condition / ordering / membership); non-trivial = distinct (class, route, other) triples",
         "classes": [c.__name__ for c in classes],
         "protocol_model_disagreements": len(diffs),
+        "mixed_literal_operand_results_checked": nmixed,
         "samples": samples,
     })
     res.assumptions += ["CPython looks special methods up on the type (instance attributes cannot change them)",
@@ -166,11 +214,17 @@ def run(res, tier):
 
 
 def replay(obj):
+    if obj.get("kind") == "mixed-result":
+        bad = [b for b in mixed_results()[0] if b[0] == obj["expr"]]
+        print(bad or "ok")
+        if bad:
+            print("VIOLATION property=C07 replay=(replayed)")
+        return 1 if bad else 0
     cls = next(c for c in T3.value_classes() if c.__name__ == obj["class"])
     real = real_routes(cls, obj["provenance"])
     outc = real.get((obj["route"], obj["other"]))
     print(obj["class"], obj["route"], obj["other"], "->", outc)
-    bad = outc == "silent" or (obj["route"] in ("truth",) and outc != "raises") or \
+    bad = outc == "silent" or (obj["route"] in ("truth", "hash") and outc != "raises") or \
         (obj["route"].endswith("+truth") and outc != "raises") or (obj["route"] == "iter" and outc != "raises")
     if bad:
         print("VIOLATION property=C07 replay=(replayed)")
